@@ -31,6 +31,9 @@ def load_engine(modules):
         importlib.import_module(m)
     for g in REGISTRY.values():
         E.contracts.update(g)
+    import contracts.common as CC
+
+    CC.install_shared(E)
     return E
 
 
@@ -88,7 +91,7 @@ def work(job):
             rec["label"] = _label_of(ob.name)
             if ob.status == "refuted":
                 rec["solver_output"] = _model_text(ob)
-                rec["replay"] = _replay(E, con, fi, ob, seed)
+                rec["replay"] = _replay(E, con, fi, ob, seed) if ob.kind != "static" else {"confirmed": False, "why": "static wiring obligation: no input involved"}
                 # known-finding region: is the obligation discharged outside the region?
                 reg = con.known.get(rec["label"]) or con.known.get(_clause_kind(ob.name))
                 if reg is not None:
@@ -126,7 +129,7 @@ def _clause_kind(name):
 
 def _model_text(ob):
     if ob.model is None:
-        return ob.detail
+        return ob.detail or "decided on the AST"
     m = ob.model
     items = []
     for d in m.decls():
